@@ -69,7 +69,17 @@ def propose(w: S.SWorld, rng: random.Random, prof: Profile):
             cands.append((W["exit"], (S.EXIT, t, i, int(i in p.failat_cms))))
         pub = w.public_scopes
         if pub:
-            cands.append((W["exit_misuse"], (S.EXIT, t, rng.choice(pub), 0)))
+            # misuse: __exit__ on an arbitrary public scope (wrong task, not the current scope, already left ...).  Not
+            # generated: leaving a scope by hand while OTHER tasks or scopes are still inside it - the implementation
+            # then keeps them in an unlinked scope whose walks stop there (since F42), a state outside the model's
+            # domain (reach_ok: scopes are left by their host when nothing else is inside)
+            def _leaves_others_inside(i_):
+                sc_ = w.scopes[i_ - 1]
+                me_ = p.task
+                return sc_._host_task is me_ and (any(x is not me_ for x in sc_._tasks) or bool(sc_._child_scopes))
+            pub_m = [i_ for i_ in pub if not _leaves_others_inside(i_)]
+            if pub_m:
+                cands.append((W["exit_misuse"], (S.EXIT, t, rng.choice(pub_m), 0)))
             act = [i for i in pub if w.scopes[i - 1]._active]
             pool = act if act and rng.random() < 0.8 else pub
             cands.append((W["cancel"], (S.CANCEL, t, rng.choice(pool), 0)))
